@@ -160,9 +160,19 @@ def replay_pair(case):
                 check(op, _call(fn, a, b), lambda got: None)
             elif verdict[op] == "accept":
                 outside.append(f"{op}: target is the zero vector (undefined)")
-    # one-vector operations
+    # one-vector operations.  They are functions of the operand: before the Cartesian clauses of a are evaluated,
+    # the same component tuple is measured in a cylindrical, a spherical and another Cartesian system; b is measured
+    # in the Cartesian system first, then elsewhere, then again.
     if verdict["un"] == "accept":
-        verdict = dict(verdict, scale="accept", msq="accept", unit="accept")
+        verdict = dict(verdict, scale="accept", msq="accept", unit="accept", **{"msq of b": "accept", "msq of b (again)": "accept"})
+        for other in (3, 4, 2):
+            _call(ar.vector_magnitude, _vec(case["a"], other))
+        if case["sb"] == case["sa"]:
+            check("msq of b", _call(lambda v: ar.vector_magnitude(v)**2, b), expect_int(case["msqb"]))
+            for other in (4, 3, 2):
+                _call(ar.vector_magnitude, _vec(case["b"], other))
+                _call(ar.vector_unit, _vec(case["b"], other))
+            check("msq of b (again)", _call(lambda v: ar.vector_magnitude(v)**2, b), expect_int(case["msqb"]))
         for k, want in zip(case["ks"], case["scale"]):
             check("scale", _call(ar.scale_vector, k, a), expect_vec(want))
         check("msq", _call(lambda v: ar.vector_magnitude(v)**2, a), expect_int(case["msq"]))
@@ -309,6 +319,69 @@ def replay_triple(case):
         if r[key] != want:
             problems.append((what, f"{what} = {r[key]}, model {want}"))
     return case, problems, outside, r
+
+
+FLOAT_FACTORS = ("1e-9", "1e-20", "1e15")
+FLOAT_RTOL = 1e-9
+
+
+def replay_float(args):
+    """The common-factor law (k u).(k v) = k^2 (u.v), |k u| = |k| |u|, |unit(k u)| = 1, k u + k v = k (u + v),
+    (k u) x (k v) = k^2 (u x v) with a FLOAT factor k (tiny or huge components).  Expected values are k-multiples of
+    the model's integer results; the comparison is relative (floats are outside TLC's exact arithmetic)."""
+    import sympy as sp
+    from symplyphysics import Vector
+    from symplyphysics.core.vectors import arithmetics as ar
+    case, kstr = args
+    k = sp.Float(kstr)
+    cs = _init()[1]
+    ua, ub = _vec(case["a"]), _vec(case["b"])
+    variants = {
+        "Float components": (Vector([k * c for c in case["a"]], cs), Vector([k * c for c in case["b"]], cs)),
+        "scale_vector(k, .)": (ar.scale_vector(k, ua), ar.scale_vector(k, ub)),
+    }
+    problems, outside = [], []
+    size = max(1.0, (case["msq"] * case["msqb"]) ** 0.5)
+
+    def close(got, want, scale):
+        try:
+            got = sp.sympify(got)
+            if not got.is_number or not got.is_finite:
+                return False
+            return abs(float(got) - float(want)) <= FLOAT_RTOL * float(scale)
+        except (TypeError, ValueError):
+            return False
+
+    for name, (a, b) in variants.items():
+        try:
+            with time_limit(20):
+                d = ar.dot_vectors(a, b)
+                if not close(d, k * k * case["dot"], k * k * size):
+                    problems.append((f"float dot k={kstr}", f"{name}: (k a).(k b) = {d}, model k^2 * {case['dot']} = {k * k * case['dot']}"))
+                m = ar.vector_magnitude(a)
+                want_m = k * sp.sqrt(case["msq"])
+                if not close(m, want_m, k * max(1.0, case["msq"] ** 0.5)):
+                    problems.append((f"float magnitude k={kstr}", f"{name}: |k a| = {m}, model k * sqrt({case['msq']}) = {sp.N(want_m)}"))
+                s_ = pad3(list(ar.add_cartesian_vectors(a, b).components))
+                if not all(close(g, k * w, k * size) for g, w in zip(s_, case["add"])):
+                    problems.append((f"float add k={kstr}", f"{name}: k a + k b = {s_}, model k * {case['add']}"))
+                c_ = pad3(list(ar.cross_cartesian_vectors(a, b).components))
+                if not all(close(g, k * k * w, k * k * size) for g, w in zip(c_, case["cross"])):
+                    problems.append((f"float cross k={kstr}", f"{name}: (k a) x (k b) = {c_}, model k^2 * {case['cross']}"))
+                if case["msq"] != 0:
+                    u = ar.vector_unit(a)
+                    comps = pad3(list(u.components))
+                    want = [sg * (Fraction(sq[0], sq[1]) ** 0.5) for sq, sg in zip(case["usq"], case["usign"])]
+                    if not all(close(g, w, 1.0) for g, w in zip(comps, want)):
+                        problems.append((f"float unit k={kstr}", f"{name}: unit(k a) = {comps}, model {want}"))
+                    mu = ar.vector_magnitude(u)
+                    if not close(mu, 1.0, 1.0):
+                        problems.append((f"float unit magnitude k={kstr}", f"{name}: |unit(k a)| = {mu}, model 1"))
+        except HardTimeout:
+            outside.append("float family: call timed out")
+        except Exception as e:  # pylint: disable=broad-except
+            problems.append((f"float k={kstr}", f"{name}: model accepts, code raised {type(e).__name__}: {str(e)[:100]}"))
+    return case, problems, outside, kstr
 
 
 def replay_nary(case):
@@ -561,6 +634,18 @@ def main() -> int:
                 if record is not None:
                     record["id"] = len(records)
                     records.append((record, case))
+        # float components: the pairs over {-1, 0, 2}, tiny and huge common factors
+        family = [c for c in pairs if all(x in (-1, 0, 2) for x in c["a"] + c["b"])]
+        floats = 0
+        for case, problems, outside, kstr in _pmap_pool(replay_float, [(c, k) for c in family for k in FLOAT_FACTORS]):
+            run.traces += 1
+            floats += 1
+            run.count(json.dumps(["float", kstr, case["a"], case["b"]]))
+            for o in outside:
+                run.outside(o)
+            for clause, what in problems:
+                report(run, _key(case, clause), what, {"kind": "float", "model": case, "k": kstr})
+        run.coverage["float_cases_compared_with_relative_tolerance"] = floats
         run.coverage["system_combinations_with_a_refusal"] = refusals
         run.coverage["records_of_real_results"] = len(records)
 
@@ -581,6 +666,10 @@ def main() -> int:
         "results are compared modulo trailing zero components (missing components count as zero)",
         "projection onto / unit of the zero vector is undefined and not compared",
         "any exception counts as a refusal; a rejection is treated as a sum (refused for non-Cartesian vectors)",
+        "float components (factors 1e-9, 1e-20, 1e15 on the pairs over {-1, 0, 2}) are compared with the k-multiples of "
+        "the model's integer results with relative tolerance 1e-9: decided outside TLC's exact arithmetic",
+        "magnitude / unit clauses are evaluated before and after the same component tuples were measured in a "
+        "cylindrical, a spherical and another Cartesian system (results must not depend on the history)",
     ]
     return run.finish(exhaustive=True)
 
@@ -616,6 +705,12 @@ def replay_file(path: str) -> int:
         bad = [p for p in problems if p[0] == c["clause"]]
     else:
         case = c["model"]
+        if c.get("kind") == "float":
+            _, problems, _, _ = replay_float((case, c["k"]))
+            for b in problems:
+                print(f"VIOLATION property={PID} replay={path}\n  {b}")
+            print("replayed:", data["key"], "->", "violation" if problems else "ok")
+            return 1 if problems else 0
         fn = replay_nary if case.get("nary") else replay_pair if case["n"] == 2 else replay_triple
         _, problems, _, record = fn(case)
         bad = list(problems)
